@@ -2,6 +2,8 @@
 Driver for stream `compiler` (C14): one op per line, one observation per line.
   case <k>                         -> case <k>                      (state reset)
   prog <prefix-coded program>      -> <hex of compile p>            (byte equality with the real compiler)
+  layout                           -> ok | bad   (Compile.layoutOK: every item decodes at its final offset; hypothesis of
+                                                  the byte/assembly simulation theorem, evaluated per program)
   offset <func>                    -> <decimal byte offset of the method> | none
   run <func> <ret> <args…>         -> halt <v> | halt - | fault | stack:<n> | asm-byte-differ …
                                        (MiniVm byte machine on the MODEL's script; cross-checked with the
@@ -159,6 +161,7 @@ def step (s : DState) (ws : List String) : DState × String :=
       let script := assemble code
       ({ prog := p, code := code, script := script }, Hex.encode script)
     | none => (s, "bad-prog")
+  | ["layout"] => (s, if layoutOK s.code then "ok" else "bad")
   | ["offset", f] =>
     match funcIndex s.prog f with
     | some i => match debugOffset s.code s.prog.length i with
